@@ -303,6 +303,9 @@ def run_case(case, ctx):
         return ood("empty track")
     ta = gen.make_track([tuple(q) for q in a])
     tb = gen.make_track([tuple(q) for q in b])
+    if case.get("idx", 0) % 5 == 1:
+        ta, _h1 = gen.derive(ta, (a, b, dim, 1))
+        tb, _h2 = gen.derive(tb, (a, b, dim, 2))
     # truth re-read through the API
     A = list(zip(ta.getX(), ta.getY(), ta.getZ()))
     B = list(zip(tb.getX(), tb.getY(), tb.getZ()))
